@@ -732,6 +732,60 @@ def run(prog, rep, tier):
     if n411 < 25:
         raise CheckerError("R4.11: only %d hour-only rows examined (expected >= 25)" % n411)
 
+    # ------------------------------------------------------------ R4.18 a row that carries a zone looks at all the bytes its own pattern can span
+    # bytes_to_regex_to_datetime applies each pattern to `line[range_regex]` only, and the end of that
+    # slice satisfies the `$` alternatives of the trailing guards.  When a row anchored at the start of
+    # the line admits a longer text than its slice (full month names, optional commas and double blanks,
+    # the three-byte minus sign), the zone is cut: `+05:45` matches an hour-only sibling as `+05`, `PETT`
+    # as `PET`, or the zone-less sibling wins (instants 15 min to 17 h off).  For every start-anchored row
+    # with a zone group and a finite longest match: range end >= longest match.
+    R418 = rep.rule("R4.18", "a start-anchored row with a zone group searches at least as far as its own longest match")
+    n418 = 0
+    short418 = []
+    for i_, r_ in enumerate(rows):
+        if not res[i_].get("anchored_start") or res[i_].get("max_len") is None:
+            continue
+        if not any(g_["name"] == "tz" for g_ in res[i_].get("groups", [])):
+            continue
+        n418 += 1
+        e_ = r_["fields"]["range_regex"]["fields"]["end"]
+        if res[i_]["max_len"] > e_:
+            short418.append((i_, r_["fields"].get("_line_num"), e_, res[i_]["max_len"], r_["fields"]["dtfs"]["fields"]["pattern"]))
+    rep.examined(R418, "table|start-anchored zone rows", sample={"rows_examined": n418, "rows_whose_longest_match_exceeds_their_slice": [(x_[0], x_[1], x_[2], x_[3]) for x_ in short418][:12]})
+    for (i_, ln_, e_, ml_, pat_) in short418:
+        rep.violation(R418, "row|%s|slice-%d<%d|tz-%s|%s" % (pat_, e_, ml_, rows[i_]["fields"]["dtfs"]["fields"]["tz"].get("variant"), rows[i_]["fields"]["regex_pattern"][:40]), "DATETIME_PARSE_DATAS[%d] (source line %s, %s) is applied to bytes 0..%d of a line, but its own pattern can span %d bytes; a timestamp in one of its longer spellings "
+                      "(a long month name, doubled blanks, the U+2212 minus) has its zone cut off: `+05:45` is read as +05, `PETT` as PET, or a zone-less sibling takes the line" % (i_, ln_, pat_, e_, ml_))
+    if n418 < 10:
+        raise CheckerError("R4.18: only %d start-anchored zone rows with a finite longest match" % n418)
+
+    # ------------------------------------------------------------ R4.19 a month group that accepts dotted abbreviations accepts them for all twelve months
+    # `Jan.` ... `Dec.` with a dot are ordinary spellings (date(1) in several locales, RFC-ish mail logs).
+    # A month group whose finite language has `jan.` but not `may.` silently fails for one month of the
+    # year: the line is not recognised and is glued to the previous message (defect F54; `May` is the one
+    # month whose abbreviation equals its name, which is how the alternative got lost).
+    R419 = rep.rule("R4.19", "a month group with dotted abbreviations has them for every month")
+    ABBR = ("jan", "feb", "mar", "apr", "may", "jun", "jul", "aug", "sep", "oct", "nov", "dec")
+    seen419 = set()
+    n419 = 0
+    for i_, r_ in enumerate(rows):
+        lang_ = _mlang(i_) if "_mlang" in dir() else None
+        if lang_ is None:
+            g_ = next((g2_ for g2_ in res[i_].get("groups", []) if g2_["name"] == "month"), None)
+            lang_ = set(x_.lower() for x_ in g_["language"]) if g_ and g_.get("language") else None
+        if not lang_ or frozenset(lang_) in seen419:
+            continue
+        seen419.add(frozenset(lang_))
+        n419 += 1
+        dotted_ = [a_ for a_ in ABBR if a_ + "." in lang_]
+        plain_ = [a_ for a_ in ABBR if a_ in lang_]
+        missing_ = [a_ for a_ in plain_ if dotted_ and a_ + "." not in lang_]
+        rep.examined(R419, "month-language#%d" % n419, sample={"first_row": i_, "months_with_dotted_abbreviation": len(dotted_), "months_without": missing_})
+        if missing_:
+            rep.violation(R419, "month-group|dotted-missing|%s" % "+".join(missing_), "DATETIME_PARSE_DATAS[%d] (source line %s): the month group accepts dotted abbreviations for %d months but not for %s; a timestamp written `%s.` in this notation is not recognised and its line is glued to the previous message"
+                          % (i_, r_["fields"].get("_line_num"), len(dotted_), missing_, missing_[0].capitalize()))
+    if n419 < 2:
+        raise CheckerError("R4.19: only %d distinct month languages found" % n419)
+
     # ------------------------------------------------------------ R4.17 a full-offset row accepts every month spelling its hour-only sibling accepts
     # Rows that are equal up to the zone group *and up to the month group* are one notation in several
     # spellings.  If the hour-only row (`%#z`) accepts month spellings (full names) that the row reading
